@@ -247,7 +247,27 @@ def run_property(pid: str, tier: str, seed: int) -> int:
             cover_groups[rep.con.name] = group
     queries = [(o.name, o.smt(), o.meta.get("solvers"), o.meta.get("timeout")) for o in obligations + lemma_obs]
     t_solve = time.time()
-    results = solve.run_many(queries + [(n, q, None, 5) for n, q in covers], timeout=timeout)
+    cover_queries = [(n, q, None, 5) for n, q in covers]
+    results = solve.run_many(queries + cover_queries, timeout=timeout)
+    # a query that ran into its wall-clock limit is run once more with a longer limit and few solver processes at a
+    # time, so that a verdict does not depend on how busy the machine is (the limits are wall-clock); a query that is
+    # still undecided then stays undecided.  At most 10 queries are retried: a change that breaks a contract can leave
+    # many obligations undecided, and reporting them must not take long.
+    expected = {o.name: o.meta.get("expect", "unsat") for o in obligations + lemma_obs}
+    slow = []
+    for q in queries:  # (an undecided cover query raises no alarm: only all-unsat covers do)
+        r = results[q[0]]
+        limit = q[3] if len(q) > 3 and q[3] else timeout
+        if expected.get(q[0]) == "nonunsat":
+            continue  # an undecided query already meets this expectation
+        if r.verdict == "unknown" and r.per_solver and any(sec >= 0.8 * limit for _, sec in r.per_solver.values()):
+            slow.append((q[0], q[1], q[2] if len(q) > 2 else None, limit * 4))
+    retried = 0
+    if slow:
+        if os.environ.get("VERIF_LIST"):
+            print("  RETRY", [x[0] for x in slow[:10]])
+        retried = len(slow[:10])
+        results.update(solve.run_many(slow[:10], timeout=timeout * 4, workers=4))
     t_solve = time.time() - t_solve
     by_backend = {}
     discharged = 0
@@ -433,8 +453,11 @@ def run_property(pid: str, tier: str, seed: int) -> int:
         ],
         wall_s=round(wall, 3), violations=len(violations),
     )
-    os.makedirs(os.path.join(VERIF, "evidence"), exist_ok=True)
-    with open(os.path.join(VERIF, "evidence", f"{pid}.json"), "w") as fh:
+    # self-tests (mutants, seeded changes on scratch copies) direct evidence and replay files elsewhere so that the
+    # committed evidence always describes /repo itself
+    out_root = os.environ.get("VERIF_OUT", VERIF)
+    os.makedirs(os.path.join(out_root, "evidence"), exist_ok=True)
+    with open(os.path.join(out_root, "evidence", f"{pid}.json"), "w") as fh:
         json.dump(ev, fh, indent=1, default=str)
     for line in known_lines:
         print(line)
@@ -445,7 +468,8 @@ def run_property(pid: str, tier: str, seed: int) -> int:
         return 0
     for name, verdict, replay, reproduced in violations:
         fname = os.path.join("replay", name.replace("/", "__").replace(":", "_")[:180] + ".json")
-        with open(os.path.join(VERIF, fname), "w") as fh:
+        os.makedirs(os.path.join(out_root, "replay"), exist_ok=True)
+        with open(os.path.join(out_root, fname), "w") as fh:
             json.dump(replay, fh, indent=1, default=str)
         print(f"FAILED-OBLIGATION {name} {verdict}")
         tail = "" if reproduced else " no-failing-input-found"
